@@ -11,6 +11,7 @@ CONSTANTS Loop = "%s"
  N = %d
  PromptEcho = %s
  Notifs = %d
+ Pre = %s
  Policies = {"now", "late", "never"}
 INVARIANTS TypeOK OwnReply NoLoss
 %s
@@ -18,8 +19,8 @@ CHECK_DEADLOCK FALSE
 """
 
 
-def rl_cfg(spec, loop, echo, n, prompt, extra, notifs=0):
-    return RL_CFG % (spec, loop, "TRUE" if echo else "FALSE", n, "TRUE" if prompt else "FALSE", notifs, extra)
+def rl_cfg(spec, loop, echo, n, prompt, extra, notifs=0, pre=False):
+    return RL_CFG % (spec, loop, "TRUE" if echo else "FALSE", n, "TRUE" if prompt else "FALSE", notifs, "TRUE" if pre else "FALSE", extra)
 
 
 def notifications(ctx, thorough, rng):
@@ -100,6 +101,15 @@ def readloop(ctx, thorough):
             raise ToolError("NcReadLoopScn failed:\n" + r["stdout"][-1500:])
         scns += r["scn"]
     ctx.notes["readloop_behaviours"] = len(scns)
+    # finer cuts: with the framing prefix of a message (1.1 chunk header line / 1.0 XML declaration) as a token of its own, one
+    # request, every behaviour, both versions
+    fine = []
+    for echo in (True, False):
+        r = ctx.tlc("NcReadLoopScn", cfg="rls.cfg", files={"rls.cfg": rl_cfg("HSpec", "v2", echo, 2 if thorough and not echo else 1, False, "CONSTRAINT Emit", pre=True)}, workers=8, timeout=1500)
+        if r["violated"] or not r["ok"]:
+            raise ToolError("NcReadLoopScn (Pre) failed:\n" + r["stdout"][-1500:])
+        fine += r["scn"]
+    ctx.notes["readloop_behaviours_with_prefix_token"] = len(fine)
     k1 = [s for s in scns if "v1" in s["kills"]]
     k0 = [s for s in scns if "v0" in s["kills"] and "v1" not in s["kills"]]
     rest = [s for s in scns if not s["kills"]]
@@ -119,6 +129,12 @@ def readloop(ctx, thorough):
             d2 = dict(d)
             d2["version"] = ("1.1", "1.0")[i % 2]
             out.append(d2)
+    for i, s2 in enumerate(fine):
+        for ver in ("1.0", "1.1"):
+            d = dict(s2)
+            d["version"] = ver
+            d["burst"] = i % 2 == 0
+            out.append(d)
     ctx.notes["readloop_replayed"] = {"kills_v1": len(k1), "kills_v0": len(k0) if thorough else min(len(k0), 150), "total": len(out)}
     res = ctx.run_harness("isolated", out, args=["c08rl"], timeout=3000, env={"VERIF_WORKERS": "12"})
     if len(res) != len(out):
